@@ -101,4 +101,53 @@ def check_summary(dassh, r, d, track=None, units=None):
                     f'duct table asm {i + 1} duct {d_ + 1}: printed peak '
                     f'{got_pk} at {got_ht}, maximum of that duct '
                     f'{want_pk:.4f} at {want_ht:.4f}')
+    # peak pin temperature tables: the radial profile of the pin and at the
+    # height where each pin temperature location peaks (1-decimal print)
+    pins = (track or {}).get('pin')
+    if pins:
+        keys = [('clad', 'od'), ('clad', 'mw'), ('clad', 'id'),
+                ('fuel', 'od'), ('fuel', 'cl')]
+        tolp = 0.051
+        for ki, (comp, reg) in enumerate(keys):
+            try:
+                ptab = dassh.table.PeakPinTempTable(comp, reg).generate(r, None)
+            except BaseException as e:
+                LAST_MISMATCH.append(f'pin table {comp} {reg} failed: '
+                                     f'{type(e).__name__}')
+                ok = False
+                continue
+            prow = {i: s_ for i, s_ in _rows(ptab)}
+            for i, a in enumerate(r.assemblies):
+                prof = pins[i][ki] if pins[i] else None
+                if prof is None:
+                    continue
+                s_ = prow.get(i + 1)
+                if s_ is None:
+                    ok = False
+                    LAST_MISMATCH.append(f'pin table {comp} {reg}: no row '
+                                         f'for asm {i + 1}')
+                    continue
+                tok = s_.replace('|', ' ').split()
+                # name, pin, height, power, cool, clad od/mw/id, fuel od/cl
+                ncol = {('clad', 'od'): 2, ('clad', 'mw'): 3, ('clad', 'id'): 4,
+                        ('fuel', 'od'): 5, ('fuel', 'cl'): 6}[(comp, reg)]
+                try:
+                    got_pin = int(tok[1])
+                    got_ht = float(tok[2])
+                    got_t = [float(x) for x in tok[4:4 + ncol]]
+                except (ValueError, IndexError):
+                    ok = False
+                    LAST_MISMATCH.append(f'pin table {comp} {reg} asm {i + 1}: '
+                                         f'unreadable row {s_!r}')
+                    continue
+                want_t = [cT(x) for x in prof[3:3 + ncol]]
+                if got_pin != int(prof[2]) or \
+                        abs(got_ht - cL(prof[1])) > tolp or \
+                        any(abs(g - w) > tolp for g, w in zip(got_t, want_t)):
+                    ok = False
+                    LAST_MISMATCH.append(
+                        f'pin table {comp} {reg} asm {i + 1}: printed pin '
+                        f'{got_pin} at {got_ht} {got_t}, peak profile pin '
+                        f'{int(prof[2])} at {cL(prof[1]):.3f} '
+                        f'{[round(w, 2) for w in want_t]}')
     return int(ok)
